@@ -47,6 +47,14 @@ int main(void)
 		if (drv_is(&c, "Reset")) reset();
 		else if (drv_is(&c, "D")) dec(drv_arg(&c, 0));
 		else if (drv_is(&c, "Walk")) walk(drv_arg(&c, 0), drv_arg(&c, 1), drv_arg(&c, 2));
+		else if (drv_is(&c, "NoDetent")) {
+			/* n inputs that never visit state 0: 1 -> 3 -> 2 (clockwise), invalid jump back to 1, ...; or the reverse */
+			long n = drv_arg(&c, 0); int dir = drv_arg(&c, 1);
+			static const int fw[3] = { 1, 3, 2 }, bw[3] = { 2, 3, 1 };
+			for (long i = 0; i < n; i++) dec(dir > 0 ? fw[i % 3] : bw[i % 3]);
+			dec(0); dec(dir > 0 ? 1 : 2); dec(0);
+			for (int k = 0; k < 4; k++) if (gray[k] == r->last_state) phase = k;
+		}
 		else if (drv_is(&c, "Random")) {
 			drv_srand(drv_arg(&c, 0));
 			long n = drv_arg(&c, 1);
